@@ -6,5 +6,5 @@ CONSTANTS
   Monotone = FALSE
   Ticks = FALSE
   IdleRec = FALSE
-INVARIANTS TypeOK Inv_Pending
+INVARIANTS TypeOK Inv_Pending Inv_ParkedNext
 VIEW ViewTour
